@@ -83,7 +83,7 @@ def main():
             names.append(a)
     sd = os.path.join(VERIF, 'seeded')
     if not names:
-        names = sorted(n for n in os.listdir(sd) if os.path.isdir(os.path.join(sd, n)))
+        names = sorted(n for n in os.listdir(sd) if os.path.exists(os.path.join(sd, n, 'meta.json')))
     os.makedirs(BASE, exist_ok=True)
     res = {}
     with concurrent.futures.ThreadPoolExecutor(max_workers=jobs) as ex:
